@@ -376,6 +376,8 @@ def layers(tier):
                     [{'lo': lo, 'hi': lo + 20, 'kmax': 64} for lo in range(0, 201, 20)],
                     'split_table over all (len <= 200, k <= 64): contiguous, ordered, disjoint, covering',
                     min_nontrivial=1000))
+    from checks.configx import config_layer
+    Ls.append(config_layer(['C10'], quick))
     Ls.append(Layer('hash-seeds', 'checks.c10:w_hashseed', [{'seeds': [0, 1, 2, 3]}],
                     'all entry points x all families in 4 fresh sub-processes under PYTHONHASHSEED 0..3: '
                     'byte-identical serialised results', min_nontrivial=10, in_main=True))
